@@ -25,8 +25,9 @@ grammar file (import statements, one class per rule, second pass).
 
 All statements hold for every file system `fs` (any import graph: nested
 directories, diamonds, cycles, self-imports, repeated imports, missing files),
-every `main` and every fuel; a run that stops with an error has no final state and
-the theorems say nothing about it (the grammar does not load).  Only property
+every `main` and every fuel.  The first group of theorems is about runs that return a
+final state; what a run that stops with an error says about the files, and when a run cannot
+stop with an error, is the last section ("The error side").  Only property
 theorems and non-vacuity examples live here; lemmas are in `Proofs/Imp.lean`.
 -/
 namespace Imp
